@@ -2581,11 +2581,13 @@ class Parameters:
         values = self_.values()
         restore = {k: values[k] for k, v in kwargs.items() if k in values}
 
+        applied = []
         try:
             for (k, v) in kwargs.items():
                 if k not in self_:
                     raise ValueError(f"{k!r} is not a parameter of {self_.cls.__name__}")
                 setattr(self_or_cls, k, v)
+                applied.append(k)
         finally:
             # Also on failure: restore the batching state found on entry
             # and announce the changes applied so far (unless a surrounding
@@ -2598,8 +2600,10 @@ class Parameters:
             finally:
                 for tp in trigger_params:
                     p = self_[tp]
-                    p._mode = 'reset'
-                    setattr(self_or_cls, tp, p._autotrigger_reset_value)
+                    if tp in applied:
+                        # (an Event that was rejected or never reached keeps its value)
+                        p._mode = 'reset'
+                        setattr(self_or_cls, tp, p._autotrigger_reset_value)
                     p._mode = 'set-reset'
         return restore
 
